@@ -34,7 +34,7 @@ func expandC17(_ *testing.T, seed uint64, tier string) []*core.Plan {
 	// failure schedule of the dials
 	nf := r.Range(0, 6)
 	for i := 0; i < nf; i++ {
-		p.Items = append(p.Items, core.Item{K: "fail", A: r.Pick(0, 1, 2, 3, 4, 5, 5, 6, 7), B: r.Range(1, 6)})
+		p.Items = append(p.Items, core.Item{K: "fail", A: r.Pick(0, 1, 2, 3, 4, 5, 5, 6, 7, 8, 8), B: r.Range(1, 6)})
 	}
 	p.Items = append(p.Items, core.Item{K: "start"})
 	tag := 0
@@ -57,7 +57,7 @@ func expandC17(_ *testing.T, seed uint64, tier string) []*core.Plan {
 		case 5:
 			p.Items = append(p.Items, core.Item{K: "stop", A: r.Intn(2)}, core.Item{K: "run", A: r.Pick(0, 100)}, core.Item{K: "start"})
 		case 6:
-			p.Items = append(p.Items, core.Item{K: "fail", A: r.Pick(1, 2, 3, 4, 5, 6, 7), B: r.Range(1, 6)})
+			p.Items = append(p.Items, core.Item{K: "fail", A: r.Pick(1, 2, 3, 4, 5, 6, 7, 8, 8), B: r.Range(1, 6)})
 		}
 	}
 	return []*core.Plan{p}
@@ -79,6 +79,9 @@ func behaviourOf(kind, k int) DialBehaviour {
 		return DialBehaviour{SubFail: true}
 	case 7:
 		return DialBehaviour{NoSuback: true}
+	case 8:
+		// the client's k-th write on this connection fails (k=1 is the CONNECT)
+		return DialBehaviour{FailSendN: 1 + k, FailSendPost: k%2 == 0}
 	}
 	return DialBehaviour{}
 }
